@@ -287,6 +287,12 @@ def run_faulty(ctx, run, name, case):
     cats = parse_tsan(err_t.decode(errors="replace"))
     ctx.tsan_reports += len(cats)
     for c in sorted(set(cats)):
+        if c.startswith("static:"):
+            # a first use that the sequential preamble did not warm (e.g. libxml2's lazily created catalog mutex on the
+            # first load of a missing file): the known first-use class, not an interference between the histories
+            V(run, "first-use-static:" + c.split(":", 1)[1], "ThreadSanitizer: first-use race (%s) inside a section with failing loads" % c,
+              replay + "\ntsan:\n" + err_t.decode(errors="replace")[:6000])
+            continue
         V(run, "tsan:indep-faulty:%s" % c, "ThreadSanitizer data race between independent histories (with failing loads): %s" % c,
                       replay + "\ntsan:\n" + err_t.decode(errors="replace")[:6000])
     ctx.faulty_cases += 1
@@ -495,6 +501,10 @@ def run_case(ctx, run, name, case, replaying=False):
             continue
         t = m.group(3)
         dv, mv = fieldv(l, "dv") or "", fieldv(l, "mv") or ""
+        if m.group(2) == "cons" and fieldv(l, "tree") == "1":
+            V(run, "reader-writes-topology:%s" % m.group(4),
+              "consulting call %s changed the topology itself (canonical dump, level arrays incl. the special levels in order, CPU kinds), single-threaded" % m.group(4),
+              replay + "\n" + l)
         if m.group(2) == "cons" and prev_valid.get(t) and fieldv(l, "chg") == "1":
             V(run, "valid-reader-writes:%s" % m.group(4), "consulting call %s on a topology whose caches were all valid changed a cache" % m.group(4), replay + "\n" + l)
         prev_valid[t] = "0" not in dv and "0" not in mv
@@ -520,6 +530,8 @@ def run_case(ctx, run, name, case, replaying=False):
                     V(run, "harness-parse", "thread program not understood in %s" % name, replay, no_input=True)
                 if fieldv(l, "eq") != "1" and kind in ("readers-warm", "readers-noexport", "readers-cold", "indep-warm", "indep-cold"):
                     V(run, "digest-mismatch:%s" % kind, "thread %s saw results different from the sequential run (%s build) in %s" % (l.split()[1], label, name), replay + "\n" + l)
+            if l.startswith("R ") and kind in ("readers-warm", "readers-noexport", "readers-cold", "control-unrefreshed", "load-bind", "nomemattr", "synth-warned") and fieldv(l, "tree_chg") == "1":
+                V(run, "reader-writes-topology:concurrent", "the topology itself (dump, level arrays, CPU kinds) changed during a section made of consulting calls only (%s build)" % label, replay + "\n" + l)
             if l.startswith("R ") and kind in ("readers-warm", "readers-noexport", "readers-cold") and fieldv(l, "cache_chg") != "0":
                 V(run, "valid-reader-writes:concurrent", "a cache of a refreshed topology changed during a readers-only section (%s build)" % label, replay + "\n" + l)
     for c in sorted(set(cats)):
